@@ -1453,5 +1453,7 @@ Proof.
   inversion E; subst i j a; clear E. cbn [att].
   repeat split; try congruence; intros _.
   - rewrite Z.add_0_r. apply Hwin. exact HN.
-  - intros _. destruct (nhi (gnode g 0)); unfold ext_le, ext_add; simpl; auto; lia.
+  - intros _. assert (Hh : forall h, ext_le (ext_add h 0) h).
+    { intros [z|]; unfold ext_le, ext_add; simpl; auto; lia. }
+    apply Hh.
 Qed.
